@@ -326,8 +326,8 @@ def gen_file(rng, ids, colkinds, for_file=False, override=False, opts=None, stre
         if any(f["q"] for f in fields):
             facts.add("quoted")
         if not opts["suppress"] and fields[-1]["c"] == "":
-            if stress and rng.random() < 0.5:
-                facts.add("trailing-empty-field(unguarded)")
+            if rng.random() < (0.6 if stress else 0.25) and not friendly:
+                facts.add("trailing-empty-field")
             else:
                 fields[-1]["c"] = "t"
         body.append({"k": "row", "fields": fields})
@@ -405,6 +405,8 @@ def check_parse(ctx, gram, lines, opts, header, proc, how="list", tags=()):
     r = ctx.driver.ask(case)
     ctx.count("parse:%s,guarded=%s,result=%s" % (how, r.get("guarded"), "ok" if "ok" in res else res["error"]))
     ctx.count("parse:mode=q%d,s%d" % (opts["strip_quotes"], opts["suppress"]))
+    if r.get("guarded"):
+        ctx.count("parse:within the theorem's guard=%s" % r.get("in_theorem_guard"))
     if res.get("error", "").startswith("Unexpected"):
         ctx.diverge(case, "from_file raised %s" % res["error"], tags)
     report(ctx, case, r, ("parse",) + tuple(tags))
@@ -743,7 +745,7 @@ def run(ctx):
     quick = ctx.quick()
     try:
         fixed_cases(ctx)
-        n_tab = 1300 if quick else 30000
+        n_tab = 1300 if quick else 20000
         for i in range(n_tab):
             t, route, hist = gen_table(rng, quick)
             ctx.count("history=" + hist)
@@ -774,9 +776,9 @@ def run(ctx):
             if rng.random() < 0.3:
                 check_del(ctx, ta.copy(), rng.choice([None, "default"]),
                           rng.choice(["sample", "observation", "whole", "bogus"]), (route, hist))
-        run_parse_stream(ctx, 4000 if quick else 120000)
-        run_raw_stream(ctx, 800 if quick else 20000)
-        n_cli = 700 if quick else 12000
+        run_parse_stream(ctx, 4000 if quick else 100000)
+        run_raw_stream(ctx, 800 if quick else 15000)
+        n_cli = 700 if quick else 9000
         for i in range(n_cli):
             friendly = (i % 4 == 3)
             if friendly:
